@@ -269,9 +269,10 @@ def mlr_eval(ctx, exprs, chunk=250):
     from concurrent.futures import ThreadPoolExecutor
 
     def one(part):
-        prog = ["end{"]
+        # the helper takes the value as a function argument: no assignment statement is involved in observing it
+        prog = ['func f(v) { return typeof(v) . "\\t" . (is_error(v) ? "(error)" : is_absent(v) ? "(absent)" : json_stringify(v)) }', "end{"]
         for e in part:
-            prog.append(f"r = {e}; print typeof({e}) . \"\\t\" . (is_error(r) ? \"(error)\" : is_absent(r) ? \"(absent)\" : json_stringify(r));unset r;")
+            prog.append(f"print f({e});")
         prog.append("}")
         with tempfile.NamedTemporaryFile("w", suffix=".mlr", delete=False) as f:
             f.write("\n".join(prog))
@@ -289,7 +290,7 @@ def mlr_eval(ctx, exprs, chunk=250):
         return r, ""
     parts = [exprs[k:k + chunk] for k in range(0, len(exprs), chunk)]
     res = []
-    with ThreadPoolExecutor(max_workers=8) as ex:
+    with ThreadPoolExecutor(max_workers=2) as ex:
         for r, err in ex.map(one, parts):
             if r is None:
                 return None, err
@@ -343,7 +344,7 @@ def cell_command(op, a, b=None):
     e = dsl_of_unary(op, DSL_REP[a][0]) if b is None else dsl_of(op, DSL_REP[a][0], DSL_REP[b][0])
     if e is None:
         e = dsl_of(op.replace("_binary", ""), DSL_REP[a][0], DSL_REP[b][0])
-    return "mlr -n put 'end{r = %s; print typeof(r) . \":\" . (is_error(r) ? \"(error)\" : is_absent(r) ? \"(absent)\" : json_stringify(r))}'" % e
+    return "mlr -n put 'end{print typeof(%s) . \":\" . (%s)}'" % (e, e)
 
 
 def mlr_crosscheck(ctx, t):
